@@ -1226,6 +1226,24 @@ Proof.
   apply in_map_iff. exists y. tauto.
 Qed.
 
+Lemma filter_target_structure (p : target) l : NoDup (map fst l) ->
+  let tl := filter (fun x => negb (target_eqb x p)) l in
+  map fst tl = map fst l \/
+  exists a b, map fst l = a ++ fst p :: b /\ map fst tl = a ++ b.
+Proof.
+  cbv zeta. induction l as [|x r IH]; intros Hn; [now left|]. cbn [map] in Hn. inversion Hn as [|? ? Hx Hr]; subst.
+  cbn [filter]. destruct (target_eqb x p) eqn:E; cbn [negb].
+  - right. unfold target_eqb in E. apply andb_true_iff in E. destruct E as [E1 E2].
+    apply N.eqb_eq in E1. exists [], (map fst r). cbn [app map]. split; [now rewrite E1|].
+    f_equal. apply filter_id_all. intros y Hy. apply negb_true_iff.
+    destruct (target_eqb y p) eqn:Ey; [|reflexivity]. exfalso. apply Hx.
+    unfold target_eqb in Ey. apply andb_true_iff in Ey. destruct Ey as [Ey _]. apply N.eqb_eq in Ey.
+    rewrite E1, <- Ey. now apply in_map.
+  - cbn [map]. destruct (IH Hr) as [H|(a & b & H1 & H2)].
+    + left. now rewrite H.
+    + right. exists (fst x :: a), b. cbn [app]. now rewrite H1, H2.
+Qed.
+
 Section TwoReads.
   Variables (dcf rackf : N -> option N) (g : ring N) (keyspaces : list (N * strategy)).
   Variables (en1 co1 en2 co2 : N -> bool) (shf : N -> N) (pol : policy) (rq : request).
@@ -1247,7 +1265,10 @@ Section TwoReads.
       (map fst (fallback dcf rackf g keyspaces en2 co2 shf pol rq cho shuf)) = true /\
     (en1 (fst p) = true /\ permitted dcf g pol rq (fst p) = true) /\
     (forall n, In n (map fst tl) -> en2 n = true /\ permitted dcf g pol rq n = true) /\
-    NoDup (map fst tl).
+    NoDup (map fst tl) /\
+    (* the rest IS the later fallback plan, or that plan with the picked node taken out *)
+    (let fb2 := map fst (fallback dcf rackf g keyspaces en2 co2 shf pol rq cho shuf) in
+     map fst tl = fb2 \/ exists a b, fb2 = a ++ fst p :: b /\ map fst tl = a ++ b).
   Proof.
     unfold plan_two_reads. pose proof (pick_matches_model dcf rackf g keyspaces en1 co1 shf pol rq Hs Hk cho shuf Hshuf Hcho) as Hp.
     pose proof (fallback_matches dcf rackf g keyspaces en2 co2 shf pol rq Hs Hk cho shuf Hshuf) as Hf.
@@ -1261,7 +1282,7 @@ Section TwoReads.
     - intros n Hn. apply in_map_iff in Hn. destruct Hn as (x & <- & Hx). apply filter_In in Hx. destruct Hx as [Hx _].
       assert (Hin : In (fst x) (map fst (fallback dcf rackf g keyspaces en2 co2 shf pol rq cho shuf))) by now apply in_map.
       split; [now apply F2|]. apply permitted_spec. split; [now apply F4|]. intros d Hd Hfo. now apply (F3 d Hd Hfo).
-    - apply NoDup_map_filter. exact F1.
+    - split; [apply NoDup_map_filter; exact F1|]. apply filter_target_structure. exact F1.
   Qed.
 End TwoReads.
 
@@ -1278,10 +1299,13 @@ Definition tw_plan : option (list target) :=
 
 Lemma two_reads_refuted :
   exists p, tw_plan = Some p /\ map fst p = [1; 2; 1]%N /\ ~ NoDup (map fst p) /\
-    plan_matches (fun _ => None) (fun _ => None) tw_g tw_ks tw_up tw_up tw_pol tw_rq (map fst p) = false /\
-    plan_matches (fun _ => None) (fun _ => None) tw_g tw_ks tw_up tw_co2 tw_pol tw_rq (map fst p) = false.
+    (* out of group order under the liveness pick() saw and under the later one *)
+    nondecreasing (map (group_of (fun _ => None) (fun _ => None) tw_g tw_ks tw_up tw_up tw_pol tw_rq) (map fst p)) = false /\
+    nondecreasing (map (group_of (fun _ => None) (fun _ => None) tw_g tw_ks tw_up tw_co2 tw_pol tw_rq) (map fst p)) = false /\
+    (* while every enabled node is named (complete under both) *)
+    (forall n, In n (all_nodes tw_g) -> In n (map fst p)).
 Proof.
-  eexists. split; [vm_compute; reflexivity|]. split; [reflexivity|]. split; [|split; vm_compute; reflexivity].
-  cbn [map fst]. intros H. inversion H as [|? ? Hx _]; subst. apply Hx. right. now left.
+  eexists. split; [vm_compute; reflexivity|]. split; [reflexivity|]. split; [|split; [vm_compute; reflexivity|split; [vm_compute; reflexivity|]]].
+  - cbn [map fst]. intros H. inversion H as [|? ? Hx _]; subst. apply Hx. right. now left.
+  - vm_compute. intros n [<-|[<-|[]]]; tauto.
 Qed.
-
